@@ -15,6 +15,11 @@ CLAIMED = {
   "Trusted: go/ssa, the gosym interpreter, the SMT solvers. Invariants and oracles in harness/C15/*.go. Outside the claim: bitmaps longer than the bound, the CAS retry loop of quotaMetric under real concurrency (single-threaded here), metrics_file_pool.go.",
   "SMT-based symbolic execution of go/ssa (z3), inductive step from symbolic pre-state, native replay of counterexamples",
   "DESIGN.md §4 C15"),
+ "C12": (
+  "Bounded symbolic model checking of the real code: cleaner.IdleInvoker (Acquire/Release/clean) is executed from go/ssa under every interleaving of 2 (quick) / 3 (thorough) threads at all harness yield points, goroutine creation/exit and blocking points (preemption bound 2/3), with cleaner failures and context cancellation as symbolic inputs; cleanBuildDirectoryCreator and sharedBuildDirectoryCreator are executed against stub directories whose every operation may fail. Assertions: cleaner never overlaps itself or a running action, runs exactly at idle<->in-use transitions, failed cleaning prevents the start, Acquire/Release balanced on every outcome, distinct directory per concurrent action, RemoveAll + parent Close on every path of Close.",
+  "Trusted: go/ssa, the gosym interpreter and its scheduler (switches only at yield/go/exit/blocking points), z3. Outside the claim: more threads or preemptions than the bound; the real file system behind the stub directories; clean_runner.go is covered by the same IdleInvoker harness only.",
+  "SMT-based symbolic execution of go/ssa with explored goroutine schedules (bounded preemptions), native schedule replay of counterexamples",
+  "DESIGN.md §4 C12"),
 }
 
 PENDING_REASON = "check not registered yet (framework under construction; see DESIGN.md §6 build order)"
